@@ -113,7 +113,36 @@ var c06Ops = map[string]c06OpInfo{
 	"applyrest": {c06Share, []int{0}, false, -1},
 	"adjoin":    {c06Ext, []int{1}, false, -1},
 	"pushnew":   {c06Ext, []int{1}, false, 1},
+	// destructive functions that overwrite elements (Op.carmap) and nbutlast
+	"fill":     {c06Destr, []int{1}, false, -1}, // args: v, x
+	"nsubst":   {c06Destr, []int{2}, false, -1}, // args: new, old, x
+	"nsubstif": {c06Destr, []int{2}, false, -1}, // args: new, even|odd, x
+	"mapinto":  {c06Destr, []int{1}, false, -1}, // args: inc|dbl, x
+	"replace":  {c06Destr, []int{2}, false, -1}, // args: start1, vals, x
+	"incfnth":  {c06Destr, []int{2}, true, -1},  // args: n, delta, x
+	"nbutlast": {c06Destr, []int{1}, false, -1}, // args: n, x
 }
+
+// c06PlaceForm renders an operation on a PLACE that is not a variable: the list sits in a holder
+// (a one-element list or vector) and the place is (car zw) / (aref zw 0); afterwards the variable gets
+// the holder's element back, so the step means the same as the operation on the variable itself.
+// body gets the place text; back = the variable is assigned from the place afterwards.
+func c06PlaceForm(form, x string, back, prog1 bool, body func(place string) string) string {
+	holder, place := "(list "+x+")", "(car zw)"
+	if form == "arefplace" {
+		holder, place = "(vector "+x+")", "(aref zw 0)"
+	}
+	inner := body(place)
+	switch {
+	case back && prog1:
+		inner = fmt.Sprintf("(prog1 %s (setf %s %s))", inner, x, place)
+	case back:
+		inner = fmt.Sprintf("%s (setf %s %s)", inner, x, place)
+	}
+	return fmt.Sprintf("(let ((zw %s)) %s)", holder, inner)
+}
+
+func c06IsPlaceForm(form string) bool { return form == "carplace" || form == "arefplace" }
 
 // c06RestDefun is defined once per process: a function that returns its &rest list.
 const c06RestDefun = "(defun c06-rest (&rest p) p) (defun c06-rest-after (a &rest p) p)"
@@ -140,6 +169,14 @@ func c06LitForm(form, vals string) string {
 func c06Fresh1Form(form, fn, x string) string {
 	if fn == "dedup" {
 		return fmt.Sprintf("(union %s nil)", x)
+	}
+	if f := strings.Split(fn, ":"); len(f) == 3 {
+		switch f[0] {
+		case "subst":
+			return fmt.Sprintf("(substitute %s %s %s)", f[1], f[2], x)
+		case "substif":
+			return fmt.Sprintf("(substitute-if %s '%sp %s)", f[1], f[2], x)
+		}
 	}
 	switch form {
 	case "copytree":
@@ -299,7 +336,9 @@ func (st c06Step) lisp() string {
 		if len(a) > 0 {
 			vals = c06Vals(a[0])
 		}
-		if st.Quoted && vals != "" {
+		if st.Form != "" {
+			form = c06LitForm(st.Form, vals) // the literal values arrive through an argument list (&rest, apply, values)
+		} else if st.Quoted && vals != "" {
 			form = "'(" + vals + ")"
 		} else {
 			form = strings.TrimSpace("(list "+vals) + ")"
@@ -309,7 +348,11 @@ func (st c06Step) lisp() string {
 	case "cons":
 		form = fmt.Sprintf("(cons %s %s)", a[0], a[1])
 	case "push":
-		form = fmt.Sprintf("(push %s %s)", a[0], a[1])
+		if c06IsPlaceForm(st.Form) {
+			form = c06PlaceForm(st.Form, a[1], true, false, func(pl string) string { return fmt.Sprintf("(push %s %s)", a[0], pl) })
+		} else {
+			form = fmt.Sprintf("(push %s %s)", a[0], a[1])
+		}
 	case "liststar":
 		form = fmt.Sprintf("(list* %s %s %s)", a[0], a[1], a[2])
 	case "append":
@@ -321,7 +364,11 @@ func (st c06Step) lisp() string {
 	case "nthcdr":
 		form = fmt.Sprintf("(nthcdr %s %s)", a[0], a[1])
 	case "pop":
-		form = fmt.Sprintf("(pop %s)", a[0])
+		if c06IsPlaceForm(st.Form) {
+			form = c06PlaceForm(st.Form, a[0], true, true, func(pl string) string { return fmt.Sprintf("(pop %s)", pl) })
+		} else {
+			form = fmt.Sprintf("(pop %s)", a[0])
+		}
 	case "last":
 		if a[0] == "1" && st.Quoted {
 			form = fmt.Sprintf("(last %s)", a[1])
@@ -368,9 +415,25 @@ func (st c06Step) lisp() string {
 	case "rplaca":
 		form = fmt.Sprintf("(rplaca %s %s)", a[0], a[1])
 	case "setcar":
-		form = fmt.Sprintf("(setf (car %s) %s)", a[0], a[1])
+		switch {
+		case c06IsPlaceForm(st.Form):
+			form = c06PlaceForm(st.Form, a[0], false, false, func(pl string) string { return fmt.Sprintf("(setf (car %s) %s)", pl, a[1]) })
+		case st.Form == "first":
+			form = fmt.Sprintf("(setf (first %s) %s)", a[0], a[1])
+		default:
+			form = fmt.Sprintf("(setf (car %s) %s)", a[0], a[1])
+		}
 	case "setnth":
-		form = fmt.Sprintf("(setf (nth %s %s) %s)", a[0], a[1], a[2])
+		switch {
+		case c06IsPlaceForm(st.Form):
+			form = c06PlaceForm(st.Form, a[1], false, false, func(pl string) string { return fmt.Sprintf("(setf (nth %s %s) %s)", a[0], pl, a[2]) })
+		case st.Form == "second" && a[0] == "1":
+			form = fmt.Sprintf("(setf (second %s) %s)", a[1], a[2])
+		case st.Form == "cadr" && a[0] == "1":
+			form = fmt.Sprintf("(setf (cadr %s) %s)", a[1], a[2])
+		default:
+			form = fmt.Sprintf("(setf (nth %s %s) %s)", a[0], a[1], a[2])
+		}
 	case "setelt":
 		form = fmt.Sprintf("(setf (elt %s %s) %s)", a[1], a[0], a[2])
 	case "rplacd":
@@ -413,7 +476,43 @@ func (st c06Step) lisp() string {
 	case "adjoin":
 		form = fmt.Sprintf("(adjoin %s %s)", a[0], a[1])
 	case "pushnew":
-		form = fmt.Sprintf("(pushnew %s %s)", a[0], a[1])
+		if c06IsPlaceForm(st.Form) {
+			form = c06PlaceForm(st.Form, a[1], true, false, func(pl string) string { return fmt.Sprintf("(pushnew %s %s)", a[0], pl) })
+		} else {
+			form = fmt.Sprintf("(pushnew %s %s)", a[0], a[1])
+		}
+	case "fill":
+		form = fmt.Sprintf("(fill %s %s)", a[1], a[0])
+	case "nsubst":
+		form = fmt.Sprintf("(nsubstitute %s %s %s)", a[0], a[1], a[2])
+	case "nsubstif":
+		form = fmt.Sprintf("(nsubstitute-if %s '%sp %s)", a[0], a[1], a[2])
+	case "mapinto":
+		form = fmt.Sprintf("(map-into %s %s %s)", a[1], c06KeyLisp(a[0]), a[1])
+	case "replace":
+		form = fmt.Sprintf("(replace %s (list %s)", a[2], c06Vals(a[1]))
+		if a[0] != "0" {
+			form += " :start1 " + a[0]
+		}
+		form += ")"
+	case "incfnth":
+		place := func(x string) string {
+			if a[0] == "0" && st.Form != "nth" {
+				return "(car " + x + ")"
+			}
+			return fmt.Sprintf("(nth %s %s)", a[0], x)
+		}
+		if c06IsPlaceForm(st.Form) {
+			form = c06PlaceForm(st.Form, a[2], false, false, func(pl string) string { return fmt.Sprintf("(incf %s %s)", place(pl), a[1]) })
+		} else {
+			form = fmt.Sprintf("(incf %s %s)", place(a[2]), a[1])
+		}
+	case "nbutlast":
+		if a[0] == "1" && st.Quoted {
+			form = fmt.Sprintf("(nbutlast %s)", a[1])
+		} else {
+			form = fmt.Sprintf("(nbutlast %s %s)", a[1], a[0])
+		}
 	default:
 		form = "(error \"unknown op\")"
 	}
@@ -877,7 +976,8 @@ func c06Judge(h c06Hist, obs []c06Obs, reply []c06StepReply) (v c06Verdict, mach
 			c := origin{c06OpName(st), i}
 			// the result of a tail-taking or in-place operation is (part of) its argument: it keeps
 			// the argument's creator
-			inherits := info.kind == c06Share || st.Op == "rplaca" || st.Op == "nreverse" || st.Op == "sort"
+			inherits := info.kind == c06Share || st.Op == "rplaca" || st.Op == "nreverse" || st.Op == "sort" ||
+				st.Op == "fill" || st.Op == "nsubst" || st.Op == "nsubstif" || st.Op == "mapinto" || st.Op == "replace"
 			if st.Op == "nconc" && (st.Args[0] == "nil" || st.Args[1] == "nil") {
 				inherits = true
 			}
@@ -947,6 +1047,13 @@ type c06Tmpl struct {
 // c06F marks a template as a variant rendered by the given Lisp form.
 func c06F(form, op string, args ...string) c06Tmpl {
 	t := c06V(op, args...)
+	t.form = form
+	return t
+}
+
+// c06E: a template rendered by the given Lisp form that is also an exposer of the pair sweep S2.
+func c06E(form, op string, args ...string) c06Tmpl {
+	t := c06T(op, args...)
 	t.form = form
 	return t
 }
@@ -1027,6 +1134,22 @@ var c06Templates = []c06Tmpl{
 	c06F("", "adjoin", "2", "$1"), c06F("", "adjoin", "$v", "$1"), c06F("", "pushnew", "3", "$1"), c06F("", "pushnew", "$v", "$1"),
 	c06F("funcallrest", "lit", "$v.$w"), c06F("defunrest", "lit", "$v.$w"), c06F("restafter", "lit", "$v.$w"), c06F("applyspread", "lit", "$v.$w"),
 	c06F("mvlist", "lit", "$v.$w"), c06F("applylist", "lit", "$v.$w"), c06F("funcallrest", "lit", ""),
+	// extension round 4: destructive functions that overwrite elements, nbutlast, and operations on
+	// places that are not variables ((pop (car w)), (setf (nth 1 (aref v 0)) x), (incf (nth 1 x)))
+	c06T("fill", "$v", "$1"), c06T("incfnth", "1", "10", "$1"), c06T("nsubst", "$v", "4", "$1"), c06T("replace", "0", "$v.$w", "$1"),
+	c06T("nbutlast", "1", "$1"),
+	c06E("carplace", "pop", "$1"), c06E("carplace", "push", "$v", "$1"), c06E("arefplace", "setnth", "1", "$1", "$v"),
+	c06V("incfnth", "0", "10", "$1"), c06F("nth", "incfnth", "0", "1", "$1"), c06V("incfnth", "2", "10", "$1"), c06V("incfnth", "7", "10", "$1"),
+	c06F("carplace", "incfnth", "1", "10", "$1"), c06F("arefplace", "incfnth", "0", "10", "$1"),
+	c06V("nsubst", "$v", "1", "$1"), c06V("nsubst", "$v", "9", "$1"), c06V("nsubstif", "$v", "even", "$1"), c06V("nsubstif", "$v", "odd", "$1"),
+	c06V("mapinto", "inc", "$1"), c06V("mapinto", "dbl", "$1"),
+	// (:start1 beyond the end: slip checks the bound for a non-empty list only - bounds are C14's; not generated)
+	c06V("replace", "0", "$v", "$1"), c06V("replace", "0", "$v.$w.$v.$w.$v.$w", "$1"),
+	c06V("nbutlast", "0", "$1"), c06V("nbutlast", "2", "$1"), c06V("nbutlast", "9", "$1"),
+	c06F("arefplace", "pop", "$1"), c06F("arefplace", "push", "$v", "$1"), c06F("carplace", "pushnew", "$v", "$1"), c06F("carplace", "pushnew", "3", "$1"),
+	c06F("carplace", "setnth", "0", "$1", "$v"), c06F("carplace", "setcar", "$1", "$v"), c06F("arefplace", "setcar", "$1", "$v"),
+	c06F("substitute", "fresh1", "subst:17:1", "$1"), c06F("substitute", "fresh1", "subst:17:9", "$1"), c06F("substituteif", "fresh1", "substif:18:odd", "$1"),
+	c06F("first", "setcar", "$1", "$v"), c06F("second", "setnth", "1", "$1", "$v"), c06F("cadr", "setnth", "1", "$1", "$v"),
 }
 
 func (t c06Tmpl) inst(g *c06Gen, target, v1, v2 string) c06Step {
@@ -1041,6 +1164,8 @@ func (t c06Tmpl) inst(g *c06Gen, target, v1, v2 string) c06Step {
 			args[i] = g.val()
 		case "$v.$w":
 			args[i] = g.val() + "." + g.val()
+		case "$v.$w.$v.$w.$v.$w":
+			args[i] = g.val() + "." + g.val() + "." + g.val() + "." + g.val() + "." + g.val() + "." + g.val()
 		case "$w":
 			args[i] = g.val()
 		default:
@@ -1096,12 +1221,28 @@ func c06BaseOf(name string, flavour int, vals string) []c06Step {
 		return []c06Step{c06Lit(name, c06Join("7", vals), true), {Target: "-", Op: "pop", Args: []string{name}}}
 	case 4: // result of subseq (a copy of a prefix of a longer list)
 		return []c06Step{c06Lit(name, c06Join(vals, "8.9"), true), {Target: name, Op: "subseq", Args: []string{"0", strconv.Itoa(n), name}}}
-	default: // result of butlast
+	case 5: // result of butlast
 		return []c06Step{c06Lit(name, c06Join(vals, "8"), false), {Target: name, Op: "butlast", Args: []string{"1", name}}}
+	case 6: // result of append (Go append growth: 3 elements in 4 slots, 5 in 8)
+		if n < 2 {
+			return []c06Step{c06Lit(name, vals, false)}
+		}
+		parts := strings.Split(vals, ".")
+		return []c06Step{c06Lit(name, strings.Join(parts[:n-1], "."), false), c06Lit(name+"0", parts[n-1], false),
+			{Target: name, Op: "append", Args: []string{name, name + "0"}}}
+	default: // a &rest list (collected with append: spare capacity)
+		return []c06Step{{Target: name, Op: "lit", Args: c06LitArgs(vals), Form: "defunrest"}}
 	}
 }
 
-const c06Flavours = 6
+func c06LitArgs(vals string) []string {
+	if vals == "" {
+		return []string{}
+	}
+	return []string{vals}
+}
+
+const c06Flavours = 8
 
 // sweep S1: every template on argument lists of length 0..5 (single call)
 func c06SweepValues() []c06Hist {
@@ -1124,14 +1265,18 @@ func c06SweepValues() []c06Hist {
 
 // sweep S2: creator x exposer. a = base list; b = creator(a[,c]); then the exposer is applied to a
 // or to b (c, d are unrelated fresh lists); every variable is observed after every step.
-func c06SweepPairs() []c06Hist {
+func c06SweepPairs(thorough bool) []c06Hist {
 	var out []c06Hist
-	for flavour := 0; flavour < c06Flavours; flavour++ {
+	flavours := []int{0, 1, 2, 3, 6, 7}
+	if thorough {
+		flavours = []int{0, 1, 2, 3, 4, 5, 6, 7}
+	}
+	for _, flavour := range flavours {
 		for ci, cr := range c06Templates {
 			if c06Ops[cr.op].atomRes {
 				continue
 			}
-			if cr.form != "" && flavour != 1 && flavour != 2 {
+			if cr.form != "" && flavour != 2 && flavour != 6 {
 				continue // the many renderings of one operation: two slice geometries (spare capacity)
 			}
 			for ei, ex := range c06Templates {
@@ -1162,16 +1307,26 @@ func c06SweepPairs() []c06Hist {
 // creator is applied to the whole list, to its length-1 tail and to its cdr; then a destructive or
 // extending exposer is applied to the result or to the operand. Every operation and every keyword
 // variant is a creator here.
-func c06SweepShort() []c06Hist {
+// geometries of the short-operand sweep: exact capacity, result of remove (spare capacity), result of
+// append (spare capacity by Go's growth); the thorough tier adds the quoted literal and the &rest list
+func c06ShortFlavours(thorough bool) []int {
+	if thorough {
+		return []int{0, 1, 2, 6, 7}
+	}
+	return []int{0, 2, 6}
+}
+
+func c06SweepShort(thorough bool) []c06Hist {
 	var out []c06Hist
 	contents := []string{"", "3", "3.1", "1.3.1", "1.2.1.3"}
 	exposers := []c06Tmpl{
 		c06T("rplaca", "$1", "$v"), c06T("setcar", "$1", "$v"), c06T("setnth", "0", "$1", "$v"), c06T("setelt", "0", "$1", "$v"),
 		c06T("rplacd", "$1", "$2"), c06T("nconc", "$1", "$2"), c06T("add", "$1", "$v"), c06T("nreverse", "$1"),
 		c06T("sort", "asc", "$1"), c06T("sort", "desc", "$1"), c06T("delete", "eq:1", "$1"), c06T("delete", "eq:3,fromend", "$1"), c06T("push", "$v", "$1"),
+		c06T("fill", "$v", "$1"), c06T("incfnth", "0", "10", "$1"),
 	}
 	for li, vals := range contents {
-		for _, flavour := range []int{0, 1, 2} {
+		for _, flavour := range c06ShortFlavours(thorough) {
 			for operand := 0; operand < 3; operand++ {
 				if operand > 0 && li < 2 {
 					continue // tails of lists shorter than 2 are nil or the list itself
@@ -1180,7 +1335,7 @@ func c06SweepShort() []c06Hist {
 					if c06Ops[cr.op].atomRes {
 						continue
 					}
-					if cr.form != "" && (flavour == 1 || li == 2 || li == 4) {
+					if cr.form != "" && (flavour == 1 || flavour == 6 || flavour == 7 || li == 2 || li == 4) {
 						continue
 					}
 					for ei, ex := range exposers {
@@ -1229,9 +1384,10 @@ func c06SweepNested() []c06Hist {
 		c06T("push", "$v", "$1"), c06T("cons", "$v", "$1"), c06T("liststar", "$v", "$w", "$1"), c06T("rplacd", "$2", "$1"),
 		c06T("rplaca", "$1", "$v"), c06T("setnth", "0", "$1", "$v"), c06T("nreverse", "$1"), c06T("sort", "asc", "$1"),
 		c06T("delete", "eq:1", "$1"), c06T("concat", "$1", "$2"), c06T("mapcar2", "$1", "$2"),
+		c06T("fill", "$v", "$1"), c06E("carplace", "push", "$v", "$1"),
 	}
 	for li, vals := range contents {
-		for _, flavour := range []int{0, 1, 2} {
+		for _, flavour := range []int{0, 2, 6} {
 			for operand := 0; operand < 2; operand++ {
 				if operand > 0 && li < 2 {
 					continue
@@ -1508,6 +1664,9 @@ type c06Letter struct {
 func c06Alphabet(templates []string, vars []string, backOps map[string]bool) []c06Letter {
 	var out []c06Letter
 	for _, t := range c06Templates {
+		if t.form != "" {
+			continue // renderings of an operation that is in the alphabet in its plain form
+		}
 		key := t.op + ":" + strings.Join(t.args, ",")
 		use := false
 		for _, k := range templates {
@@ -1890,9 +2049,9 @@ func runC06(c *lib.Ctx) {
 	// 1. single-cause sweeps (seed independent)
 	s1 := c06RunBatch(c, c06SweepValues(), workers)
 	report(s1, true, "sweep_values")
-	s2 := c06RunBatch(c, c06SweepPairs(), workers)
+	s2 := c06RunBatch(c, c06SweepPairs(c.Thorough()), workers)
 	report(s2, true, "sweep_pairs")
-	s3 := c06RunBatch(c, c06SweepShort(), workers)
+	s3 := c06RunBatch(c, c06SweepShort(c.Thorough()), workers)
 	report(s3, true, "sweep_short")
 	s4 := c06RunBatch(c, c06SweepNested(), workers)
 	report(s4, true, "sweep_nested")
@@ -1946,7 +2105,7 @@ func runC06(c *lib.Ctx) {
 		exh := 0
 		emit := func(hs []c06Hist) { report(c06RunBatch(c, hs, workers), false, "exhaustive") }
 		wide2 := append(append([]string{}, wide...), "remove:eq:1,count=1,fromend,$1", "remove:dups,$1", "delete:eq:1,fromend,$1", "member:gt:2,$1",
-			"sort:desc,$1", "mapcar2:$1,$2", "liststar2:$v,$1", "last:1,$1")
+			"sort:desc,$1", "mapcar2:$1,$2", "liststar2:$v,$1", "last:1,$1", "fill:$v,$1", "incfnth:1,10,$1", "nbutlast:1,$1", "replace:0,$v.$w,$1")
 		a2 := c06Alphabet(wide2, []string{"a", "b", "d", "f", "k", "$last"}, back)
 		exh += c06Exhaustive(a2, 2, []int{0, 1, 2, 3, 4, 5}, avoidListed, batch, emit)
 		a3 := c06Alphabet(wide, []string{"a", "b", "$last"}, map[string]bool{"add": true, "cdr": true})
